@@ -11,6 +11,11 @@
 // Every program (lines up to `end`) runs in a forked child, so a crash of the library is reported as `crash`
 // for the remaining lines of that program instead of killing the harness.
 #include <yaclib/async/contract.hpp>
+#include <yaclib/async/join.hpp>
+#include <yaclib/async/wait.hpp>
+#include <yaclib/async/wait_for.hpp>
+#include <yaclib/async/when_all.hpp>
+#include <yaclib/async/when_any.hpp>
 #include <yaclib/async/make.hpp>
 #include <yaclib/async/run.hpp>
 #include <yaclib/async/shared_contract.hpp>
@@ -25,6 +30,7 @@
 #include <sys/wait.h>
 #include <unistd.h>
 
+#include <chrono>
 #include <cstdio>
 #include <cstdlib>
 #include <cstring>
@@ -1165,7 +1171,116 @@ static void RunProgram(const std::vector<std::string>& lines, int fd) {
   }
 }
 
+// ------------------------------------------------------------------------------------------------ C20: combinators / wait
+// `pipe --comb`: allocations of WhenAll / WhenAny / Join (dynamic form, n unfulfilled inputs) at the call and while the
+// inputs complete, and of Wait / WaitFor on n futures, for several n.  One line per measurement.
+template <typename MakeComb>
+static void MeasureComb(const char* name, int n, MakeComb&& make) {
+  std::vector<Fut> futs;
+  std::vector<Prom> proms;
+  futs.reserve(static_cast<size_t>(n));
+  proms.reserve(static_cast<size_t>(n));
+  for (int i = 0; i < n; ++i) {
+    auto [f, p] = yaclib::MakeContract<int, PErr>();
+    futs.push_back(std::move(f));
+    proms.push_back(std::move(p));
+  }
+  const long a0 = cnt::news;
+  cnt::on = true;
+  auto out = make(futs);
+  cnt::on = false;
+  const long a1 = cnt::news;
+  cnt::on = true;
+  for (int i = 0; i < n; ++i) {
+    std::move(proms[static_cast<size_t>(i)]).Set(i);
+  }
+  cnt::on = false;
+  const long a2 = cnt::news;
+  const bool ready = out.Ready();
+  cnt::on = true;
+  { auto dead = std::move(out); }
+  cnt::on = false;
+  std::printf("comb %s n=%d call=%ld complete=%ld ready=%d live=%ld\n", name, n, a1 - a0, a2 - a1, ready ? 1 : 0, cnt::live);
+}
+
+static void MeasureWait(int n) {
+  std::vector<Fut> futs;
+  std::vector<Prom> proms;
+  futs.reserve(static_cast<size_t>(n));
+  proms.reserve(static_cast<size_t>(n));
+  for (int i = 0; i < n; ++i) {
+    auto [f, p] = yaclib::MakeContract<int, PErr>();
+    futs.push_back(std::move(f));
+    proms.push_back(std::move(p));
+  }
+  // not ready: WaitFor(0) registers, times out, resets
+  const long a0 = cnt::news;
+  cnt::on = true;
+  const bool r0 = yaclib::WaitFor(std::chrono::nanoseconds{0}, futs.begin(), futs.end());
+  cnt::on = false;
+  const long a1 = cnt::news;
+  for (int i = 0; i < n; ++i) {
+    std::move(proms[static_cast<size_t>(i)]).Set(i);
+  }
+  const long a2 = cnt::news;
+  cnt::on = true;
+  yaclib::Wait(futs.begin(), futs.end());
+  const bool r1 = yaclib::WaitFor(std::chrono::nanoseconds{0}, futs.begin(), futs.end());
+  int sum = 0;
+  for (auto& f : futs) {
+    sum += std::move(f).Get().Ok();
+  }
+  cnt::on = false;
+  const long a3 = cnt::news;
+  std::printf("wait n=%d waitfor_unready=%ld(%d) wait_ready+waitfor+get=%ld(%d) sum=%d\n", n, a1 - a0, r0 ? 1 : 0, a3 - a2,
+              r1 ? 1 : 0, sum);
+}
+
+static int CombMain() {
+  for (int n : {1, 2, 3, 4, 8, 16, 64, 512}) {
+    MeasureComb("all", n, [](std::vector<Fut>& fs) {
+      return yaclib::WhenAll(fs.begin(), fs.size());
+    });
+    MeasureComb("all_none", n, [](std::vector<Fut>& fs) {
+      return yaclib::WhenAll<yaclib::FailPolicy::None>(fs.begin(), fs.size());
+    });
+    MeasureComb("any", n, [](std::vector<Fut>& fs) {
+      return yaclib::WhenAny(fs.begin(), fs.size());
+    });
+    MeasureComb("any_firstfail", n, [](std::vector<Fut>& fs) {
+      return yaclib::WhenAny<yaclib::FailPolicy::FirstFail>(fs.begin(), fs.size());
+    });
+    MeasureComb("join", n, [](std::vector<Fut>& fs) {
+      return yaclib::Join(fs.begin(), fs.size());
+    });
+    MeasureWait(n);
+  }
+  {  // static (variadic) forms
+    auto mk = [] {
+      return yaclib::MakeContract<int, PErr>();
+    };
+    auto [f1, p1] = mk();
+    auto [f2, p2] = mk();
+    auto [f3, p3] = mk();
+    const long a0 = cnt::news;
+    cnt::on = true;
+    auto all = yaclib::WhenAll(std::move(f1), std::move(f2), std::move(f3));
+    cnt::on = false;
+    const long a1 = cnt::news;
+    cnt::on = true;
+    std::move(p1).Set(1);
+    std::move(p2).Set(2);
+    std::move(p3).Set(3);
+    cnt::on = false;
+    std::printf("comb all_static n=3 call=%ld complete=%ld ready=%d\n", a1 - a0, cnt::news - a1, all.Ready() ? 1 : 0);
+  }
+  return 0;
+}
+
 int main(int argc, char** argv) {
+  if (argc > 1 && std::strcmp(argv[1], "--comb") == 0) {
+    return CombMain();
+  }
   YACLIB_INIT_DEBUG(OnAssert);
   const bool nofork = argc > 1 && std::strcmp(argv[1], "--nofork") == 0;
   std::vector<std::string> lines;
